@@ -1,6 +1,7 @@
 package imapclient
 
 import (
+	"bytes"
 	"fmt"
 	"io"
 	netmail "net/mail"
@@ -499,8 +500,8 @@ func (c *Client) handleFetch(seqNum uint32) error {
 	// We're in a tricky situation: to know whether this FETCH response needs
 	// to be handled by a pending command, we may need to look at the UID in
 	// the response data. But the response data comes in in a streaming
-	// fashion: it can contain literals. Assume that the UID will be returned
-	// before any literal.
+	// fashion: it can contain literals. The UID is normally returned before
+	// any literal; when it isn't, see holding below.
 	var uid imap.UID
 	handled := false
 	handleMsg := func() {
@@ -538,7 +539,33 @@ func (c *Client) handleFetch(seqNum uint32) error {
 
 		handled = true
 	}
-	defer handleMsg()
+
+	// A UID FETCH command is matched by the UID in the response data. When the
+	// message has to be handed over before its UID has been seen (a literal or
+	// more items than the channel holds come first) and a UID FETCH is
+	// pending, the items are held back, literals read into memory, until the
+	// UID is known or the response ends.
+	var held []FetchItemData
+	holding := false
+	pendingUIDFetch := func() bool {
+		return c.findPendingCmdFunc(func(anyCmd command) bool {
+			cmd, ok := anyCmd.(*FetchCommand)
+			if !ok {
+				return false
+			}
+			_, ok = cmd.numSet.(imap.UIDSet)
+			return ok
+		}) != nil
+	}
+	release := func() {
+		handleMsg()
+		for _, item := range held {
+			items <- item
+		}
+		held = nil
+		holding = false
+	}
+	defer release()
 
 	numAtts := 0
 	return dec.ExpectList(func() error {
@@ -711,10 +738,29 @@ func (c *Client) handleFetch(seqNum uint32) error {
 		}
 
 		numAtts++
-		if numAtts > cap(items) || done != nil {
-			// To avoid deadlocking we need to ask the message handler to
-			// consume the data
-			handleMsg()
+		if holding && uid != 0 {
+			release()
+		}
+		if !handled && !holding && (numAtts > cap(items) || done != nil) {
+			if uid == 0 && pendingUIDFetch() {
+				holding = true
+			} else {
+				// To avoid deadlocking we need to ask the message handler to
+				// consume the data
+				handleMsg()
+			}
+		}
+
+		if holding {
+			if done != nil {
+				var err error
+				item, err = c.bufferFetchLiteral(item)
+				if err != nil {
+					return err
+				}
+			}
+			held = append(held, item)
+			return nil
 		}
 
 		if done != nil {
@@ -727,6 +773,35 @@ func (c *Client) handleFetch(seqNum uint32) error {
 		}
 		return nil
 	})
+}
+
+// bufferFetchLiteral reads the literal of a body or binary section into memory
+// and returns the item with the in-memory copy.
+func (c *Client) bufferFetchLiteral(item FetchItemData) (FetchItemData, error) {
+	var lit imap.LiteralReader
+	switch item := item.(type) {
+	case FetchItemDataBodySection:
+		lit = item.Literal
+	case FetchItemDataBinarySection:
+		lit = item.Literal
+	}
+
+	c.setReadTimeout(literalReadTimeout)
+	b, err := io.ReadAll(lit)
+	c.setReadTimeout(respReadTimeout)
+	if err != nil {
+		return nil, err
+	}
+
+	switch item := item.(type) {
+	case FetchItemDataBodySection:
+		item.Literal = bytes.NewReader(b)
+		return item, nil
+	case FetchItemDataBinarySection:
+		item.Literal = bytes.NewReader(b)
+		return item, nil
+	}
+	return item, nil
 }
 
 func isMsgAttNameChar(ch byte) bool {
